@@ -327,6 +327,14 @@ func lexStmt(l *lexer) stateFn {
 // lexString scans a run of non-separator characters
 func lexString(l *lexer) stateFn {
 	for r := l.peek(); r != eof && !isTerminator(r); r = l.peek() {
+		// An unquoted string holds no comment: a comment opener ends it
+		// (but not before it has begun: "default //x" has been seen
+		// as a comment already)
+		if r == '/' && l.pos > l.start &&
+			(strings.HasPrefix(l.input[l.pos:], leftComment) ||
+				strings.HasPrefix(l.input[l.pos:], lineComment)) {
+			break
+		}
 		l.next()
 	}
 	l.emit(itemString)
